@@ -117,5 +117,8 @@ def pair_jobs(tier, cores):
     return striped("pairstall", n, 0, min(cores, 12))
 
 
-for _p in ("C02", "C03", "C04", "C12"):
+for _p in ("C02", "C03", "C04", "C05", "C11", "C12"):
     PLANS[_p]["jobs"] = multi(PLANS[_p]["jobs"], pair_jobs)
+
+# C12: the twins must report equal counts after concurrent use (quiescent Size/Count exactness on the twin flavours)
+PLANS["C12"]["jobs"] = multi(PLANS["C12"]["jobs"], simple("sizeq", (120, 0), (6000, 0), stripes_q=4))
